@@ -434,9 +434,11 @@ class PhysicalUnit(object):
 
                 if all([x % rounded == 0 for x in self._powers]):
                     f = self._factor**power
-                    p = [x / rounded for x in self._powers]
+                    # all of these are exact multiples of rounded: keep them integer so
+                    # that name() gives 'm**2' rather than the unparseable 'm**2.0'.
+                    p = [x // rounded for x in self._powers]
                     if all([x % rounded == 0 for x in self._names.values()]):
-                        names = self._names / rounded
+                        names = NumberDict((k, v // rounded) for k, v in self._names.items())
                     else:
                         names = NumberDict()
                         if f != 1.:
